@@ -84,6 +84,37 @@ def run(ctx, rep):
                 else:
                     rep.ok("R-ORD-2", key + "/acquire", cfg=tag)
                     rep.ok("R-ORD-6", key + "/after-free", cfg=tag)
+        # R-ORD-2 (no-decrement form): a free reached by an owner without decrementing needs an acquire observation `count == 1`
+        from . import c03
+
+        G = c03.Gates(F)
+        for b in F.body_list:
+            key = b["key"]
+            B = None
+            edges = None
+            for p in A.paths.get(key, []):
+                if not (vget(p.vec, "free_raw") and not vget(p.vec, "dec")):
+                    continue
+                if any(F.handle_name(x) == "UniqueArc" for x in b.get("inputs", [])):
+                    continue  # sole owner by type (C09)
+                direct = [e for e in p.events if vget(e["vec"], "free_raw") and e["kind"] in ("CALL", "DROP", "FREE")]
+                if not direct or b["kind"] == "Closure":
+                    continue
+                # only judge the body in which the observation and the free meet: it must not itself be called with the free already paired
+                if B is None:
+                    B = cfg.Body(b)
+                    edges = c03.gate_edges_with_order(F, G, B)
+                if not edges:
+                    continue
+                blocks = list(p.blocks)
+                passed = [(x, y, o) for (x, y, roots, o) in edges for i in range(len(blocks) - 1) if blocks[i] == x and blocks[i + 1] == y]
+                if not passed:
+                    continue
+                ik = key + "/sole-owner-free"
+                if all(o in atomics.ACQUIRE_OK for (_x, _y, o) in passed):
+                    rep.ok("R-ORD-2", ik, cfg=tag)
+                else:
+                    rep.bad("R-ORD-2", ik, balance.path_report(F, b, p, "the block is freed after observing `count == 1` through a %s load: without Acquire the destruction is not ordered after the accesses of owners that released on other threads" % "/".join(sorted(set(str(o) for (_x, _y, o) in passed)))), F.loc(b), tag)
         # R-ORD-4: no plain access to the count field
         _plain_access(F, rep, tag)
         # R-FUNNEL: atomic RMW sites only in Arc's own code; every handle kind's Clone/Drop reaches them exactly once
